@@ -7,6 +7,7 @@ import Swat4.Properties.C11
 import Swat4.Lemmas.TimedInv
 import Swat4.Lemmas.CleanRace
 import Swat4.Model.CleanerComponent
+import Swat4.Lemmas.UseCaseMore
 /-!
 # C14 — Servers expire by the clock: fresh ones are never cleaned, stale ones are
 
@@ -1143,5 +1144,19 @@ example : RefInv (⟨W.state, 10, []⟩ : USys).abs (⟨W.state, 10, []⟩ : USy
       rw [(cleaner_faulted_pass 500 100 ⟨W.state, 10, []⟩).2.1]; exact W.state_at
     rw [show [false, true] = [false] ++ [true] from rfl, cleanerPasses_append]
     exact (cleaner_healthy_pass_complete 500 100 _ h1.1 h1.2.1).2.2.1 W.A.key _ hold (by decide)
+
+/-! ## the programs `usecases_walk_on_moving_clock` left out (third outside review, item 6) -/
+
+/-- **`usecases_walk_on_moving_clock`, the two remaining client programs.**  The `TPres` list is written by hand; two programs
+the drivers run as clients of the system model were not in it: `Heartbeat6.renewIP` (the keepalive with the request's `net.IP`
+as it is, run by the `dg6` op: it reads the clock and refreshes the stored record at that value) and the prober runner
+`UC.proberRunWith` / `UC.proberRun` (`PopMany(n)`, then `UC.probe` for every popped probe — the `pop|<n>|<outcome>` client).
+Both walk on a moving clock from any `T`, so `refLeUpd_usys` (whose hypothesis is `TPres` of every client's program) covers
+systems that contain them. -/
+theorem usecases_walk_on_moving_clock_more (T : Int) :
+    (∀ i ip, TimedInv.TPres T (Heartbeat6.renewIP i ip)) ∧
+    (∀ n oc order, TimedInv.TPres T (UC.proberRunWith n oc order)) ∧
+    (∀ n outcome, TimedInv.TPres T (UC.proberRun n outcome)) :=
+  ⟨UseCaseMore.renewIP_tpres T, UseCaseMore.proberRunWith_tpres T, fun n o => UseCaseMore.proberRunWith_tpres T n _ _⟩
 
 end Swat4.C14
